@@ -6,6 +6,14 @@ Engine D: model matrices (1x3, 3x3, 5x3, 3x5) x {dense, rank-deficient, with a z
 Oracle (mc.ref.gpref_b, 50 digits): prior N(m, K), likelihood N(A x, S):
     mean = m + K A^T J^-1 (y - A m),  cov = K - K A^T J^-1 A K,  J = A K A^T + S,
     evidence = log N(y; A m, J) (+ m/2 log 2 pi: either convention), gradient = Richardson of the 50-digit evidence.
+The mean axis includes "N": a user-defined MeanFunction subclass (written here, the way the class documentation invites)
+that is non-linear in its hyper-parameters, m(x) = exp(a) sin(b x_0 + c); same 50-digit oracle.
+
+history  : call histories on ONE inverter object: every sequence of <= 3 calls over {calculate_posterior,
+           calculate_posterior_mean, marginal_likelihood, marginal_likelihood_gradient} x 3 hyper-parameter vectors, the
+           caller passing a fresh array each time / re-using ONE array that it overwrites in place between calls / doing
+           so and also scribbling over the arrays it got back.  After every call the result must be that of a fresh
+           inverter given a fresh copy of the same vector (the statement is about the hyper-parameter VALUES).
 """
 import itertools
 import math
@@ -21,7 +29,14 @@ COND_MAX = 1e10
 SHAPES = [(1, 3), (3, 3), (5, 3), (3, 5)]
 AKINDS = ["dense", "rankdef", "zerorow"]
 KERNELS = ["SE", "RQ", ["+", "SE", "WN"], ["CP", 0, "SE", "SE"]]
-MEANS = ["C", "L"]
+MEANS = ["C", "L", "N"]
+METHODS = ["calculate_posterior", "calculate_posterior_mean", "marginal_likelihood", "marginal_likelihood_gradient"]
+MODES = ["fresh-array", "inplace-array", "inplace-array+scribble"]
+# user-defined mean m(x) = exp(a) sin(b x_0 + c): {low, mid, high} of a, of b (in units of 1 / position range) and of c
+N_A = (-0.9, 0.0, 0.6)
+N_B = (0.8, 1.7, 2.9)
+N_C = (-0.7, 0.3, 1.4)
+HIST_RTOL = 1e-12
 
 
 def frac(v):
@@ -83,6 +98,66 @@ def scales(prob):
     return {"sy": 1.0, "ybar": 0.5, "rng": r.tolist(), "xmin": X.min(axis=0).tolist()}
 
 
+_USER = {}
+
+
+def user_mean_class():
+    """a mean function as a user of the library would write it (sub-class of the MeanFunction abstract base class),
+    non-linear in all three hyper-parameters: m(x) = exp(a) sin(b x_0 + c).  It keeps no state besides the positions."""
+    if "cls" not in _USER:
+        from inference.gp.mean import MeanFunction
+
+        class SineMean(MeanFunction):
+            def __init__(self, hyperpar_bounds=None):
+                self.bounds = hyperpar_bounds
+                self.n_params = 3
+                self.hyperpar_labels = ["SineMean log-amplitude", "SineMean wavenumber", "SineMean phase"]
+
+            def pass_spatial_data(self, x):
+                self.x0 = np.array(x[:, 0], dtype=float)
+                self.n_data = x.shape[0]
+
+            def estimate_hyperpar_bounds(self, y):
+                r = float(self.x0.max() - self.x0.min())
+                self.bounds = [(-3.0, 3.0), (0.0, 10.0 / r), (-math.pi, math.pi)]
+
+            def __call__(self, q, theta):
+                return math.exp(theta[0]) * np.sin(theta[1] * np.asarray(q)[..., 0] + theta[2])
+
+            def build_mean(self, theta):
+                return math.exp(theta[0]) * np.sin(theta[1] * self.x0 + theta[2])
+
+            def mean_and_gradients(self, theta):
+                a = math.exp(theta[0])
+                arg = theta[1] * self.x0 + theta[2]
+                sn, cs = np.sin(arg), np.cos(arg)
+                return a * sn, [a * sn, a * self.x0 * cs, a * cs]
+
+        _USER["cls"] = SineMean
+    return _USER["cls"]
+
+
+def lib_mean(mspec):
+    from checks import c11
+
+    return user_mean_class()() if mspec == "N" else c11.lib_mean(mspec)
+
+
+def mean_theta(mspec, im, s):
+    from checks import c11
+
+    if mspec == "N":
+        return [N_A[im], N_B[(im + 1) % 3] / s["rng"][0], N_C[(im + 2) % 3]]
+    return c11.mean_theta(mspec, im, s)
+
+
+def theta_at(kspec, mspec, prob, im, ia, il, ie):
+    from checks import c11
+
+    s = scales(prob)
+    return mean_theta(mspec, im, s) + c11.kernel_theta(kspec, (ia, il, ie), s, "inv")
+
+
 def hp_lattice(kspec, mspec, prob, sub=None):
     from checks import c11
 
@@ -95,7 +170,7 @@ def hp_lattice(kspec, mspec, prob, sub=None):
                 continue
             if sub[0] == 9 and (im + 3 * ia) != (sub[1] - 2 * (il + 3 * ie)) % 9:
                 continue
-        out.append(c11.mean_theta(mspec, im, s) + c11.kernel_theta(kspec, (ia, il, ie), s, "inv"))
+        out.append(mean_theta(mspec, im, s) + c11.kernel_theta(kspec, (ia, il, ie), s, "inv"))
     return out
 
 
@@ -139,7 +214,7 @@ def ev_inverter(case):
         skipped[why] = skipped.get(why, 0) + 1
 
     with lib("construct"):
-        inv = GpLinearInverter(y=y.copy(), y_err=e.copy(), model_matrix=A.copy(), parameter_spatial_positions=X.copy(), prior_covariance_function=c11.lib_kernel(kspec), prior_mean_function=c11.lib_mean(mspec))
+        inv = GpLinearInverter(y=y.copy(), y_err=e.copy(), model_matrix=A.copy(), parameter_spatial_positions=X.copy(), prior_covariance_function=c11.lib_kernel(kspec), prior_mean_function=lib_mean(mspec))
     if inv.n_hyperpars != len(case["thetas"][0]):
         raise HarnessError("hyper-parameter layout: model has %d, reference %d" % (inv.n_hyperpars, len(case["thetas"][0])))
 
@@ -255,7 +330,173 @@ def ev_inverter(case):
     return {"fails": out, "n": nev, "tags": tags, "slack": slack, "skipped": skipped, "sample": sample}
 
 
-EVALUATORS = {"inverter": ev_inverter}
+# ------------------------------------------------------------------ evaluator: call histories on one object
+def theta_set(kspec, mspec, prob, which, rot=0):
+    """three different hyper-parameter vectors.
+    "diag":  every block differs between any two of them (lattice points (i,i,i,i), i = 0,1,2);
+    "split": B differs from A in the mean block only, C differs from A in the covariance blocks only
+             (a result remembered under a key that is only part of the vector shows up here)"""
+    r = rot % 3
+    if which == "diag":
+        idx = [((i + r) % 3,) * 4 for i in range(3)]
+    elif which == "split":
+        a = (r, (r + 1) % 3, (r + 1) % 3, r)
+        idx = [a, ((r + 1) % 3,) + a[1:], (a[0], (a[1] + 1) % 3, (a[2] + 2) % 3, (a[3] + 1) % 3)]
+    else:
+        raise HarnessError(which)
+    return [theta_at(kspec, mspec, prob, *i) for i in idx]
+
+
+def result_parts(method, res):
+    """-> list of (component name, float array)"""
+    if method == "calculate_posterior":
+        return [("mean", np.asarray(res[0], dtype=float)), ("covariance", np.asarray(res[1], dtype=float))]
+    if method == "calculate_posterior_mean":
+        return [("mean", np.asarray(res, dtype=float))]
+    if method == "marginal_likelihood":
+        return [("value", np.asarray(float(res), dtype=float))]
+    return [("value", np.asarray(float(res[0]), dtype=float)), ("gradient", np.asarray(res[1], dtype=float))]
+
+
+def same_bits(a, b):
+    return a.shape == b.shape and a.tobytes() == b.tobytes()
+
+
+def rel_difference(a, b):
+    """max |a - b| / max |b| (elementwise for the gradient is not asked: one scale per array)"""
+    if a.shape != b.shape:
+        return float("inf")
+    if not (np.all(np.isfinite(a)) and np.all(np.isfinite(b))):
+        return 0.0 if np.array_equal(np.isnan(a), np.isnan(b)) and np.array_equal(np.nan_to_num(a), np.nan_to_num(b)) else float("inf")
+    sc = float(np.abs(b).max()) if b.size else 0.0
+    df = float(np.abs(a - b).max()) if b.size else 0.0
+    return 0.0 if df == 0 else (df / sc if sc > 0 else float("inf"))
+
+
+def ev_history(case):
+    from checks import c11
+    from inference.gp import GpLinearInverter
+    from mc.ref import gpref_b as G
+
+    prob = case["problem"]
+    kspec, mspec, mode = case["kernel"], case["mean"], case["mode"]
+    if mode not in MODES:
+        raise HarnessError(mode)
+    m, n = prob["shape"]
+    d = prob["d"]
+    A = np.array(prob["A"], dtype=float)
+    X = np.array(prob["X"], dtype=float)
+    y = np.array(prob["y"], dtype=float)
+    e = np.array(prob["y_err"], dtype=float)
+    thetas = [np.array(t, dtype=float) for t in case["thetas"]]
+    nth = len(thetas)
+    p = len(thetas[0])
+    kn = c11.kname(kspec)
+    pcls = c11.param_classes(kspec, mspec, d)
+    pm = G.mean_n_params(mspec, d)
+    cfg = "A=%dx%d-%s,yerr=%s,d=%d,pos=%s,k=%s,m=%s" % (m, n, prob["akind"], prob["ekind"], d, prob["pkind"], kn, mspec)
+    fails, tags, slack = [], set(), {}
+    seen = set()
+    nev = 0
+
+    def new_inverter():
+        with lib("construct"):
+            inv = GpLinearInverter(y=y.copy(), y_err=e.copy(), model_matrix=A.copy(), parameter_spatial_positions=X.copy(), prior_covariance_function=c11.lib_kernel(kspec), prior_mean_function=lib_mean(mspec))
+        if inv.n_hyperpars != p:
+            raise HarnessError("hyper-parameter layout: model has %d, reference %d" % (inv.n_hyperpars, p))
+        return inv
+
+    # what the statement is about: the result for the VALUE theta, from an object without a past, given its own array
+    fresh = {}
+    for mi, method in enumerate(METHODS):
+        for ti in range(nth):
+            inv = new_inverter()
+            with lib(method):
+                res = getattr(inv, method)(thetas[ti].copy())
+            nev += 1
+            fresh[(mi, ti)] = [(nm, a.copy()) for nm, a in result_parts(method, res)]
+    # how many of the (method, pair of vectors) combinations a stale answer would be visible in
+    visible = 0
+    for mi in range(len(METHODS)):
+        for t1, t2 in itertools.combinations(range(nth), 2):
+            if any(not same_bits(a[1], b[1]) for a, b in zip(fresh[(mi, t1)], fresh[(mi, t2)])):
+                visible += 1
+    if visible < len(METHODS):
+        raise HarnessError("the hyper-parameter vectors of this block do not give distinguishable results")
+
+    def add(key, what, **ctx):
+        if key not in seen:
+            seen.add(key)
+            fails.append(fail(key, what, **ctx))
+
+    ops = [(mi, ti) for mi in range(len(METHODS)) for ti in range(nth)]
+    nseq = 0
+    for length in range(1, int(case["max_len"]) + 1):
+        for seq in itertools.product(ops, repeat=length):
+            nseq += 1
+            inv = new_inverter()
+            buf = np.full(p, np.nan)
+            kept = []  # (position, method index, array object handed out, copy taken when it was handed out)
+            for pos, (mi, ti) in enumerate(seq):
+                method = METHODS[mi]
+                if mode == "fresh-array":
+                    arg = thetas[ti].copy()
+                else:
+                    buf[:] = thetas[ti]  # the caller's one array, overwritten in place
+                    arg = buf
+                with lib(method):
+                    res = getattr(inv, method)(arg)
+                nev += 1
+                hist = [[METHODS[a], b] for a, b in seq[: pos + 1]]
+                ctx = {"config": cfg, "mode": mode, "calls": hist, "thetas": [t.tolist() for t in thetas]}
+                if not same_bits(arg, thetas[ti]):
+                    add("history/%s/%s/theta-modified" % (mode, method), "the hyper-parameter array was changed by the call", **ctx)
+                    buf = np.full(p, np.nan)
+                parts = result_parts(method, res)
+                for (nm, got), (_, want) in zip(parts, fresh[(mi, ti)]):
+                    if same_bits(got, want):
+                        continue
+                    r = rel_difference(got, want)
+                    slack["history_rel_difference"] = max(slack.get("history_rel_difference", 0.0), (r / HIST_RTOL) if np.isfinite(r) else 0.0)
+                    if r > HIST_RTOL:
+                        comp = nm
+                        if nm == "gradient" and got.shape == want.shape:
+                            j = int(np.argmax(np.abs(got - want)))
+                            comp = "gradient:" + pcls[j]
+                        add(
+                            "history/%s/%s/%s/differs-from-fresh-object" % (mode, method, comp),
+                            "call %d of the history, %s(vector %d), returns a %s that differs from what a fresh inverter given a fresh copy of the same hyper-parameters returns: relative difference %.3g (allowed %g)"
+                            % (pos + 1, method, ti, nm, r, HIST_RTOL),
+                            observed=np.asarray(got).tolist(),
+                            expected=want.tolist(),
+                            **ctx,
+                        )
+                raw = [res] if not isinstance(res, tuple) else list(res)
+                for obj in raw:
+                    if isinstance(obj, np.ndarray) and obj.ndim > 0:
+                        if mode.endswith("+scribble"):
+                            obj[...] = np.nan  # the caller re-uses the arrays it was given
+                        else:
+                            kept.append((pos, mi, obj, obj.copy()))
+            for pos, mi, obj, cp in kept:
+                if not same_bits(obj, cp):
+                    add(
+                        "history/%s/%s/earlier-result-changed-by-later-call" % (mode, METHODS[mi]),
+                        "the array returned by call %d was modified by a later call" % (pos + 1),
+                        config=cfg, mode=mode, calls=[[METHODS[a], b] for a, b in seq], thetas=[t.tolist() for t in thetas],
+                    )
+            if fails and len(seen) >= 6:
+                break
+        if fails:
+            break  # the shortest failing histories have been reported
+    if not np.array_equal(inv.A, A) or not np.array_equal(inv.y, y):
+        add("history/%s/inputs-modified" % mode, "model matrix or data changed", config=cfg)
+    tags.add("history,%s,%s,set=%s" % (cfg, mode, case["set"]))
+    tags.add("history,%s,%s,distinguishable=%d/%d" % (cfg, mode, visible, len(METHODS) * nth * (nth - 1) // 2))
+    return {"fails": fails, "n": nev, "tags": tags, "slack": slack, "sample": {"config": cfg, "mode": mode, "set": case["set"], "histories": nseq, "calls": nev, "distinguishable": visible}}
+
+
+EVALUATORS = {"inverter": ev_inverter, "history": ev_history}
 
 
 def chunks(lst, k):
@@ -281,15 +522,49 @@ def run(ck):
                                 npoints += len(thetas)
                                 for blk in chunks(thetas, 9 if quick else 27):
                                     cases.append({"problem": prob, "kernel": kspec, "mean": mspec, "thetas": blk})
+    # ---------------------------------------------------------------- call histories on one object
+    hist = []
+    nhist = 0
+    sets = ["diag", "split"]
+    for ki, kspec in enumerate(KERNELS):
+        for mi, mspec in enumerate(MEANS):
+            rot = seed + ki + 2 * mi
+            layouts = [rot % 4] if quick else range(4)
+            for si in layouts:
+                r2 = rot + si
+                prob = make_problem(SHAPES[si], AKINDS[r2 % 3], ("uniform", "mixed")[r2 % 2], 1 + (r2 // 2) % 2, pk1[r2 % 3], seed)
+                for wi, which in enumerate(sets):
+                    if quick and wi != (r2 % 2):
+                        continue
+                    ths = theta_set(kspec, mspec, prob, which, r2)
+                    # the same three vectors go through the 50-digit oracle (one object, all four calls per vector)
+                    cases.append({"problem": prob, "kernel": kspec, "mean": mspec, "thetas": ths})
+                    npoints += len(ths)
+                    for mode in MODES:
+                        hist.append({"problem": prob, "kernel": kspec, "mean": mspec, "thetas": ths, "set": which, "mode": mode, "max_len": 3})
+                        nhist += sum((len(METHODS) * len(ths)) ** k for k in (1, 2, 3))
     cases.sort(key=lambda c: -len(c["thetas"][0]) * len(c["thetas"]) * c["problem"]["shape"][1] ** 2)
     ck.run_cases("inverter", cases, chunk=1)
+    hist.sort(key=lambda c: -len(c["thetas"][0]) * c["problem"]["shape"][1] ** 2)
+    ck.run_cases("history", hist, chunk=1)
     ck.rule = (
         "cartesian lattice: model matrices {1x3,3x3,5x3,3x5} x {dense, rank-deficient, zero row} x y_err {uniform, mixed 1e-3..1} x positions "
         "(d in 1,2; regular / irregular / one duplicated position) x kernels (SE, RQ, SE+WN, CP(SE,SE)) x means (constant, linear) x "
         "{low,mid,high} per hyper-parameter block (quick: a Latin ninth of the hyper-parameter product); distinct = (configuration, decade of "
-        "cond(I + K A^T S^-1 A))"
+        "cond(I + K A^T S^-1 A)); means include a user-defined MeanFunction subclass exp(a) sin(b x_0 + c), non-linear in its hyper-parameters. "
+        "history: kernels x means x model-matrix layouts (quick: one rotating layout, thorough all four) x hyper-parameter triples "
+        "{all blocks differ, mean-only / covariance-only differences} (quick: one, rotating) x caller conventions {fresh array per call, ONE array "
+        "overwritten in place between calls, the same and the returned arrays overwritten by the caller}: every sequence of 1, 2 and 3 calls over "
+        "{calculate_posterior, calculate_posterior_mean, marginal_likelihood, marginal_likelihood_gradient} x 3 vectors (12 + 144 + 1728 "
+        "histories per block, a new inverter for each); after every call the result is compared bit-for-bit (else to 1e-12 relative) with a "
+        "fresh inverter given a fresh copy of the vector; the three vectors of a block also go through the 50-digit oracle; distinct = "
+        "(configuration, caller convention, triple)"
     )
+    ck.assume("call histories are limited to 3 calls over 4 methods x 3 hyper-parameter vectors on one object; agreement with a fresh object is required bit-for-bit or to 1e-12 of the largest entry of the result")
+    ck.assume("the user-defined mean function is the one written in checks/c17.py (exp(a) sin(b x_0 + c), stateless); other user classes are represented by it")
     ck.assume("continuous inputs are represented by the listed finite lattices; at most 5 parameters / 5 data (50-digit reference); points with cond(A K A^T + S) or cond(I + K A^T S^-1 A) > 1e10 are skipped and counted")
     ck.assume("the diagonal stabiliser of smooth kernels is accepted as any relative inflation in [0,1e-10] of the kernel diagonal (measured from the model's prior covariance)")
     ck.assume("optimize_hyperparameters (Nelder-Mead) is not part of the statement and is not exercised")
     ck.extra["lattice_points"] = npoints
+    ck.extra["history_blocks"] = len(hist)
+    ck.extra["histories"] = nhist
